@@ -215,6 +215,8 @@ class Event:
     def __rsub__(self, o):
         if isinstance(o, (int, float)) and o == 1:
             return Event(frozenset(PAULIS) - self.s)
+        if isinstance(o, Bad):
+            return o
         return TOP
 
     def __sub__(self, o):
@@ -224,11 +226,15 @@ class Event:
             if not o.s <= self.s:
                 return Bad(f'difference {self}-{o} of non-nested events')
             return Event(self.s - o.s)
+        if isinstance(o, Bad):
+            return o
         return TOP
 
     def __truediv__(self, o):
         if isinstance(o, Event):
             return Ratio(self, o)
+        if isinstance(o, Bad):
+            return o                     # an ill-formed denominator makes the quotient ill-formed
         return TOP
 
     def __mul__(self, o):
